@@ -89,7 +89,7 @@ Section Spec.
   Lemma readd_ok_model cap s c v : Inv names_of cap s -> readd_ok s c (add_cert cap c v s) = true.
   Proof.
     intros HI. unfold readd_ok. destruct (alookup (c_hash c) (cache s)) as [e|] eqn:E; [|reflexivity].
-    destruct (readd_merges_tags cap s c v e E) as (Hix & Hlen & Hkeys & Hother & e' & He' & Heq & Htags & _).
+    destruct (readd_merges_tags cap s c v e E) as (Hix & Hlen & Hkeys & Hother & e' & He' & Heq & Htags & Hnd).
     rewrite He', Hlen, Hkeys, Hix, Nat.eqb_refl, incl_b_refl. cbn [andb].
     rewrite amap_eqb_refl;
       [|intros l; apply strs_eqb_eq; reflexivity | apply (inv_nodup_idx _ _ s HI)].
@@ -98,6 +98,10 @@ Section Spec.
     rewrite (incl_b_In (c_tags e) (c_tags e')) by (intros x Hx; apply Htags; auto).
     rewrite (incl_b_In (c_tags c) (c_tags e')) by (intros x Hx; apply Htags; auto).
     rewrite (incl_b_In (c_tags e') (c_tags e ++ c_tags c)) by (intros x Hx; apply in_app_iff, Htags, Hx).
+    cbn [andb].
+    replace (negb (nodup_b (c_tags e)) || nodup_b (c_tags e')) with true
+      by (destruct (nodup_b (c_tags e)) eqn:En; [|reflexivity]; cbn [negb orb]; symmetry;
+          apply nodup_b_NoDup, Hnd, nodup_b_true, En).
     cbn [andb]. apply forallb_forall. intros [k x] Hin. cbn [fst snd].
     destruct (str_eqb_spec k (c_hash c)) as [->|Hne]; [reflexivity|]. cbn [orb].
     rewrite (Hother k Hne), (In_alookup _ k x (inv_nodup _ _ s HI) Hin).
@@ -238,7 +242,12 @@ Section Spec.
   Proof.
     intros HI Hwf. destruct o as [o|z vs|q| |r]; cbn [wstep_of step_spec_b dstep d_st].
     - destruct o as [c v|c|old new v|hs|sj|c|upd|h v]; cbn [step]; try reflexivity.
-      + apply (readd_ok_model (d_cap d)), HI.
+      + unfold add_ok. rewrite (readd_ok_model (d_cap d)) by exact HI. apply add_cert_cached.
+      + unfold replace_ok, replace_cert. rewrite add_cert_cached. cbn [andb].
+        destruct (str_eqb_spec (c_hash old) (c_hash new)) as [Heq|Hne]; [reflexivity|]. cbn [orb].
+        apply negb_true_iff. destruct (amem (c_hash old) (cache (add_cert (d_cap d) new v (remove_cert old (d_st d))))) eqn:Em; [|reflexivity].
+        apply add_cert_only_adds in Em. destruct Em as [Em|Em]; [congruence|].
+        cbn [remove_cert cache] in Em. rewrite amem_adelete, str_eqb_refl in Em. discriminate.
       + apply (writeback_ok_of_rel P_ocsp same_but_ocsp P_ocsp_refl P_ocsp_pb (d_cap d)); [exact HI|].
         apply (same_but_wb_rel P_ocsp (fun e => set_ocsp e (c_ocsp c))); [|apply write_back_effect].
         intros e. destruct e; reflexivity.
